@@ -282,7 +282,10 @@ var (
 
 type c38LabelSet [][2]string // as passed to the builder (may contain empty values)
 
-func c38LabelSets(values []string) []c38LabelSet {
+func c38LabelSets(values []string) []c38LabelSet { return c38LabelSetsOver(c38Names, values) }
+
+// c38LabelSetsOver: every assignment of values (values[0] = absent) to names (given in label order).
+func c38LabelSetsOver(c38Names []string, values []string) []c38LabelSet {
 	dims := make([]int, len(c38Names))
 	for i := range dims {
 		dims[i] = len(values)
@@ -424,6 +427,23 @@ func c38Rules(level int) (rules []*c38Rule, invalid int) {
 	}
 	return rules, invalid
 }
+
+// c38LabelmapOnto: labelmap rules that map a matching label name onto ANOTHER label name of the
+// set (a later one: a->ax->axx chains; constant targets; identity), to be run on label sets over
+// the names a, ax, b, z where 2-3 names match.
+func c38LabelmapOnto() (rules []*c38Rule) {
+	for _, re := range []string{"(a.*)", "(a.*)|b", "a|b", "(a|ax)", "(.*)", "(a)", "(a|b|z)"} {
+		for _, rp := range []string{"${1}x", "b", "ax", "$1", "z", "a", "axx", "${1}"} {
+			rr := c38Rule{Action: "labelmap", Sep: ";", Regex: re, Repl: rp}
+			if err := rr.prepare(); err == nil {
+				rules = append(rules, &rr)
+			}
+		}
+	}
+	return rules
+}
+
+var c38OntoNames = []string{"a", "ax", "b", "z"} // in label order
 
 // ---- running one case ------------------------------------------------------------------------------
 
@@ -657,6 +677,13 @@ func TestVerifC38(t *testing.T) {
 	}
 	var spaces []space
 	spaces = append(spaces, space{name: "single", first: full, sets: sets})
+	onto := c38LabelmapOnto()
+	setsOnto := c38LabelSetsOver(c38OntoNames, []string{"\x00absent", "x", "y"})
+	spaces = append(spaces,
+		space{name: "labelmap onto other label names", first: onto, sets: setsOnto},
+		space{name: "labelmap onto other label names, twice", first: onto, second: onto, sets: setsOnto},
+		space{name: "reduced rule, then labelmap onto other label names", first: reduced, second: onto, sets: setsOnto},
+		space{name: "labelmap onto other label names, then reduced rule", first: onto, second: reduced, sets: setsOnto})
 	if r.Thorough() {
 		spaces = append(spaces,
 			space{name: "chain2 full x reduced", first: full, second: reduced, sets: sets},
@@ -724,6 +751,7 @@ func TestVerifC38(t *testing.T) {
 	r.Set("rules_full", len(full))
 	r.Set("rules_reduced", len(reduced))
 	r.Set("rules_mini", len(mini))
+	r.Set("rules_labelmap_onto", len(onto))
 	r.Set("rules_rejected_by_validate", invalidFull)
 	r.Set("label_sets", len(sets))
 	perAction := map[string]int{}
@@ -731,8 +759,8 @@ func TestVerifC38(t *testing.T) {
 		perAction[ru.Action]++
 	}
 	r.Set("rules_per_action", perAction)
-	r.Set("rule", fmt.Sprintf("label sets: every assignment of {absent,\"\",x,y,xY,1} to the names %q (%d sets, empty values included on input); rules: every VALID combination (Config.Validate) of action x source_labels/separator %v x regex {default object,(.*),x,(x)(Y)?,.+,^$,x;(.*)} x replacement {$1,lit,\"\",${1}-$2,$1x} x target {c,a,${1},l$1} x name validation {utf8,legacy} x modulus {1,2,3}, labelmap/labeldrop/labelkeep regexes over the names (%d rules; reduced alphabet %d rules); every single rule and the listed chain spaces, each on every label set. "+
-		"distinct_nontrivial = distinct rule chains that changed or dropped at least one label set (nontrivial_cases = number of (chain,label set) cases whose outcome differs from the input); distinct_outcomes = distinct resulting label sets (or DROP)", c38Names, len(sets), c38Sources, len(full), len(reduced)))
+	r.Set("rule", fmt.Sprintf("label sets: every assignment of {absent,\"\",x,y,xY,1} to the names %q (%d sets, empty values included on input); rules: every VALID combination (Config.Validate) of action x source_labels/separator %v x regex {default object,(.*),x,(x)(Y)?,.+,^$,x;(.*)} x replacement {$1,lit,\"\",${1}-$2,$1x} x target {c,a,${1},l$1} x name validation {utf8,legacy} x modulus {1,2,3}, labelmap/labeldrop/labelkeep regexes over the names (%d rules; reduced alphabet %d rules); every single rule and the listed chain spaces, each on every label set; plus %d labelmap rules mapping a matching name onto another name of the set (regexes (a.*), (a.*)|b, a|b, (a|ax), (.*), (a), (a|b|z) x replacements ${1}x, b, ax, $1, z, a, axx) alone, twice, and before/after every reduced rule, on all 81 label sets over the names a,ax,b,z x values absent,x,y. "+
+		"distinct_nontrivial = distinct rule chains that changed or dropped at least one label set (nontrivial_cases = number of (chain,label set) cases whose outcome differs from the input); distinct_outcomes = distinct resulting label sets (or DROP)", c38Names, len(sets), c38Sources, len(full), len(reduced), len(onto)))
 	r.Assume("reference: docs/configuration/configuration.md <relabel_config> interpreted on map[string]string with stdlib regexp anchored as ^(?:re)$; hashmod = last 8 bytes (big endian) of MD5 mod modulus; a replace whose expanded target is not a valid label name does nothing; labelmap copies the values the labels had before the action, and when several labels are mapped to one name any of their values is admissible")
 	r.Assume("values contain no newline, so '.' vs newline is not exercised")
 	if !r.Expired() {
